@@ -78,6 +78,11 @@ class SectorStream(StreamWrapper):
     
     def _read(self, size: int)->bytes:
 
+        # nothing to read (e.g. at the end of the stream): do not touch
+        # the sector after the last one
+        if size <= 0:
+            return bytes()
+
         remaining_size = size
 
         initial_sector_index    = self.position // self.sector_length
